@@ -26,12 +26,18 @@ ALL_KINDS = ["Saliency", "GradientInput", "IntegratedGradients", "SmoothGrad", "
 RANDOM = {"SmoothGrad", "SquareGrad", "VarGrad", "Rise", "Lime", "KernelShap", "SobolAttributionMethod", "HsicAttributionMethod"}
 
 
-def gen_case(rng, method, tier):
-    if method in IMG_ONLY:
+def gen_case(rng, method, tier, force=None):
+    if force is not None:
+        kind = force
+    elif method in IMG_ONLY:
         kind = "img"
     else:
         kind = rng.choice(["tab", "ts", "img", "img"])
-    if kind == "tab":
+    if force == "tab":
+        shape = [1]                           # the smallest valid input: a single feature
+    elif force == "ts":
+        shape = [1, 1]                        # a single time step of a single feature
+    elif kind == "tab":
         shape = [rng.choice([1, 3, 5, 7])]
     elif kind == "ts":
         shape = [rng.choice([1, 4, 5]), rng.choice([1, 3, 4])]
@@ -54,7 +60,10 @@ def gen_case(rng, method, tier):
 
 def generate(rng, tier):
     reps = 2 if tier == "quick" else 10
-    return [gen_case(rng, m, tier) for _ in range(reps) for m in ALL_KINDS + IMG_ONLY]
+    cases = [gen_case(rng, m, tier) for _ in range(reps) for m in ALL_KINDS + IMG_ONLY]
+    # edge of the valid range, for every method that accepts non-image data: one feature, one time step
+    cases += [gen_case(rng, m, tier, force=f) for m in ALL_KINDS for f in ("tab", "ts")]
+    return cases
 
 
 def nontrivial(case):
@@ -156,6 +165,17 @@ def run_impl(case):
         expl = make_explainer(method, model, case["kind"], shape)
         for c in case["containers"] + (["ds_prefetch"] if case["probe_prefetch"] else []):
             try:
+                if c == "ds_prefetch":
+                    # the probe of the known finding hands a wrongly shaped tensor to the explainer (the batch axis is not
+                    # removed), which may fix lazily-set parameters for another input kind: use an explainer of its own
+                    probe = make_explainer(method, model, case["kind"], shape)
+                    xi, ti = container(c, x, t)
+                    seeded(case["seed"])
+                    e = probe.explain(xi, ti)
+                    a = np.asarray(e)
+                    out[c] = dict(shape=list(a.shape), dtype=str(e.dtype.name if hasattr(e.dtype, "name") else e.dtype),
+                                  finite=bool(np.all(np.isfinite(a))), values=a.astype(np.float64))
+                    continue
                 if c == "np32_reused":
                     xi, ti = (x * 0.5 + 0.25).astype(np.float32), np.roll(t, 1, axis=1).astype(np.float32)
                     seeded(case["seed"] + 1)
